@@ -289,5 +289,10 @@ def queries(tier):
                 desc="layer: PHY always ready; corruption masks and invalid cycles in the partner stream free (shallow)"),
           Query("bmc_free", f, 12 if quick else 20, split=False, timeout=600 if quick else 2000, covers=[], required=False, asserts=ctl,
                 desc="best effort: everything free incl. PHY ready")]
+    if quick:
+        # the retransmission clauses need two headers on the wire and an LBAD at any cycle relative to them: deeper than
+        # the K=24 of bmc_clean, but these two assertions stay cheap
+        qs.append(Query("bmc_clean_retx", f, 32, layer=clean, timeout=3000, asserts=["tx_order", "dl_flag"], covers=[],
+                        desc="layer as bmc_clean, deeper: order and delayed flag of (re)transmitted headers"))
     qs.append(Query("cosim", f, 0, kind="cosim", cosim_cycles=200 if quick else 1000))
     return qs
